@@ -91,6 +91,11 @@ def case_body_force(ctx, family, which="force"):
     V = float(region.dV.sum())
     ctx.equal("body_force_resultant", r.sum(axis=0), rho * g * V, tol=1e-10)
     ctx.check_concrete("multiplier_is_minus_one", item.assemble.multiplier == -1.0)
+    # a ramped load changes the values through update(): density / scale must survive
+    g2 = ctx.array("g2", (m.dim,), -2, 2)
+    item.update(g2)
+    r2 = dense(ctx, item.assemble.vector(field)).reshape(-1, m.dim)
+    ctx.equal("body_force_resultant_after_update", r2.sum(axis=0), rho * g2 * V, tol=1e-10)
 
 
 def case_pressure(ctx, family):
@@ -118,6 +123,10 @@ def case_pressure(ctx, family):
     ctx.equal("pressure_resultant_is_minus_p_times_current_area_vector", r.sum(axis=0), -p * tot, tol=1e-10)
     # closed surface (all faces of the single cell): the resultant vanishes for every deformation
     ctx.equal("pressure_resultant_vanishes_on_closed_surface", r.sum(axis=0), np.zeros(d, dtype=int), tol=1e-10)
+    p2 = ctx.var("p2", -3, 3)
+    item.update(p2)
+    r2 = dense(ctx, item.assemble.vector(field)).reshape(-1, m.dim)
+    ctx.equal("pressure_vector_scales_with_updated_pressure", r2 * p, r * p2, tol=1e-10)
 
 
 def _cof(F):
@@ -190,10 +199,14 @@ def case_mpc(ctx, which):
     centre = m.npoints - 1
     if which == "mpc":
         item = fem.MultiPointConstraint(field, points=[1, 2, 4], centerpoint=centre, multiplier=k)
+    elif which == "mpc_skip":
+        item = fem.MultiPointConstraint(field, points=[1, 2, 4], centerpoint=centre, skip=(False, True), multiplier=k)
     else:
         item = fem.MultiPointContact(field, points=[1], centerpoint=centre, skip=(False, True), multiplier=k)
     r = dense(ctx, item.assemble.vector(field)).reshape(-1, 2)
     ctx.equal("constraint_forces_self_equilibrated", r.sum(axis=0), np.zeros(2, dtype=int))
+    if which == "mpc_skip":
+        ctx.equal("no_force_along_skipped_axis", r[:, 1], np.zeros(m.npoints, dtype=int))
 
 
 def cases(tier):
@@ -212,5 +225,6 @@ def cases(tier):
     for fam in ("quad4x2", "tri3") + (("hex8", "tet4") if thorough else ()):
         out.append(("mass", case_mass, {"family": fam}))
     out.append(("mpc", case_mpc, {"which": "mpc"}))
+    out.append(("mpc", case_mpc, {"which": "mpc_skip"}))
     out.append(("mpc", case_mpc, {"which": "contact", "max_paths": 32}))
     return out
